@@ -325,9 +325,24 @@ func dischargeAll(fvs []*FV, filter func(*Obligation) bool, timeout time.Duratio
 			}
 		}
 	}
-	// pre-render axiom text serially (not goroutine-safe)
+	// pre-render axiom text and type facts serially (not goroutine-safe; type ids are
+	// allocated while rendering, so iterate until the id table is stable)
 	for _, fv := range fvs {
 		fv.axiomText()
+	}
+	for {
+		n := 0
+		if len(fvs) > 0 {
+			n = len(fvs[0].eng.tidT)
+		}
+		for _, fv := range fvs {
+			fv.typeFactsDone = false
+			fv.typeFactsCache = fv.typeFactsCompute()
+			fv.typeFactsDone = true
+		}
+		if len(fvs) == 0 || len(fvs[0].eng.tidT) == n {
+			break
+		}
 	}
 	// phase 0: vacuity guard - the entry assumptions (prelude, axioms, type invariants, requires)
 	// of every function must not be refutable
